@@ -44,6 +44,8 @@
 (*                  double free, items constructed/destroyed exactly once, *)
 (*                  no use of a destroyed or moved-from item               *)
 (*  Balanced        when no object exists: liveBlocks = {} /\ liveItems={} *)
+(*  NoGlobalAlloc   no call of the global operator new inside a library    *)
+(*                  call (exclusions: see TraceLifecycle)                  *)
 (***************************************************************************)
 EXTENDS Integers, Sequences, FiniteSets, TLC
 CONSTANTS Slots,      \* e.g. 1..3
@@ -160,6 +162,10 @@ EnvAfter(env) ==
             THEN "alloc-returns-live-block" ELSE BlockClause(haveB, env.F)
       ic == IF RunSet(env.ic) \cap liveItems # {} \/ ~RunsNoDup(env.ic) THEN "item-constructed-over-live-item" ELSE ItemClause(haveI, env) IN
   [b |-> haveB \ SeqSet(env.F), it |-> haveI \ RunSet(env.id), bad |-> IF bc # "" THEN bc ELSE ic]
+
+\* "all memory is obtained through the allocator supplied by the user": gnew / gobs = number of calls of the (throwing) global
+\* operator new observed during the call / during the digest observation that follows it
+NoGlobalAlloc(gnew, gobs) == gnew = 0 /\ gobs = 0
 
 NoObject(ns) == \A s \in Slots : ns[s].st = "Dead"
 Balanced(ns, s) == NoObject(ns) => (s.b = {} /\ s.it = {})
